@@ -202,25 +202,40 @@ Definition check_scase (c : scase) : list (N * N * N) :=
 Definition failing_set (cs : list scase) : list (N * N * N) := flat_map check_scase cs.
 
 (* ------------------------------------------------------------------ H3: real Consensus peers over libp2p *)
-(* the deltas of the common Merkle-DAG, the pinset of every trusted peer once all of them hold the same heads, and the
-   CIDs on which an update of the peer nobody trusts showed through *)
-Record h3 := mk_h3 { h3_deltas : list delta; h3_finals : list (list (key * val)); h3_leak : list key }.
+(* the deltas of the Merkle-DAGs below the heads of the compared peers; every compared peer with its trust configuration
+   (trust-all, trusted_peers as indices) and its pinset once the peers hold the same heads (or the long timeout expired);
+   the peers that issued operations; the CIDs on which an update of the peer nobody trusts showed through *)
+Record npeer := mk_npeer { np_id : N; np_all : bool; np_list : list N; np_final : list (key * val) }.
+Record h3 := mk_h3 { h3_deltas : list delta; h3_peers : list npeer; h3_writers : list N; h3_leak : list key }.
 
-Definition diverging_finals (keys : list key) (fs : list (list (key * val))) (membership_only : bool) : list key :=
-  match fs with
+(* IsTrustedPeer (Model/C02_Net.v `trusts`) on the observed configuration *)
+Definition np_trusts (x : npeer) (p : N) : bool := np_all x || (p =? np_id x) || memN p (np_list x).
+
+(* the convergence clause applies to x and y: they trust each other, and they trust the same writers (the hypothesis of
+   crdt_trusting_peers_converge, instantiated by crdt_mutual_trust_same_signers when only x and y write) *)
+Definition comparable (ws : list N) (x y : npeer) : bool :=
+  np_trusts x (np_id y) && np_trusts y (np_id x) && forallb (fun w => Bool.eqb (np_trusts x w) (np_trusts y w)) ws.
+
+Definition differ (membership_only : bool) (k : key) (f0 f : list (key * val)) : bool :=
+  if membership_only then negb (Bool.eqb (match aget k f0 with Some _ => true | None => false end)
+                                         (match aget k f with Some _ => true | None => false end))
+  else negb (optN_eqb (aget k f0) (aget k f)).
+
+(* keys on which some comparable pair of peers disagrees *)
+Fixpoint diverging_pairs (ws : list N) (keys : list key) (ps : list npeer) (membership_only : bool) : list key :=
+  match ps with
   | [] => []
-  | f0 :: rest =>
-      filter (fun k => existsb (fun f =>
-                 if membership_only then negb (Bool.eqb (match aget k f0 with Some _ => true | None => false end)
-                                                        (match aget k f with Some _ => true | None => false end))
-                 else negb (optN_eqb (aget k f0) (aget k f))) rest) keys
+  | x :: rest =>
+      filter (fun k => existsb (fun y => comparable ws x y && differ membership_only k (np_final x) (np_final y)) rest) keys
+      ++ diverging_pairs ws keys rest membership_only
   end.
 
 Definition spec_codes_net (h : h3) : list (N * N) :=
-  let keys := nodup N.eq_dec (flat_map (fun d => map fst (d_adds d)) (h3_deltas h)) in
+  let keys := nodup N.eq_dec (flat_map (fun d => map fst (d_adds d)) (h3_deltas h) ++ flat_map (fun p => map fst (np_final p)) (h3_peers h)) in
   let hh := mk_h2 (h3_deltas h) [] in
-  let bad20 := diverging_finals keys (h3_finals h) true in
-  let bad21 := diverging_finals keys (h3_finals h) false in
+  let bad20 := diverging_pairs (h3_writers h) keys (h3_peers h) true in
+  (* a key that is a member at one peer only is reported once, as a membership divergence *)
+  let bad21 := filter (fun k => negb (memN k bad20)) (diverging_pairs (h3_writers h) keys (h3_peers h) false) in
   (match bad20 with [] => [] | _ => [(20, 0)] end) ++
   (match bad21 with [] => [] | _ => [(21, tag_of hh bad21)] end) ++
   (match h3_leak h with [] => [] | _ => [(24, 0)] end).
